@@ -168,12 +168,12 @@ impl Reader {
                         return Err(format::Error::Malformed);
                     }
                 }
-                if !(0 <= t.num && t.num <= self.header.hr.num_items - t.start) {
-                    error!("invalid item_type num: must be in range 0 to num_items - start + 1, item_type={} type_id={} start={} num={}", i, t.type_id, t.start, t.num);
-                    return Err(format::Error::Malformed);
-                }
                 if t.start != expected_start {
                     error!("item_types are not sequential, item_type={} type_id={} start={} expected={}", i, t.type_id, t.start, expected_start);
+                    return Err(format::Error::Malformed);
+                }
+                if !(0 <= t.num && t.num <= self.header.hr.num_items - t.start) {
+                    error!("invalid item_type num: must be in range 0 to num_items - start + 1, item_type={} type_id={} start={} num={}", i, t.type_id, t.start, t.num);
                     return Err(format::Error::Malformed);
                 }
                 expected_start += t.num;
@@ -222,6 +222,13 @@ impl Reader {
                 if item_header.size < 0 {
                     error!(
                         "item has negative size, item={} size={}",
+                        i, item_header.size
+                    );
+                    return Err(format::Error::Malformed);
+                }
+                if item_header.size as usize % mem::size_of::<i32>() != 0 {
+                    error!(
+                        "item size not divisible by 4, item={} size={}",
                         i, item_header.size
                     );
                     return Err(format::Error::Malformed);
